@@ -116,8 +116,75 @@ template<unsigned M> static void run_mask(const std::vector<std::string>& inputs
 }
 template<unsigned... M> static void run_all(const std::vector<std::string>& inputs, std::integer_sequence<unsigned, M...>) { (run_mask<M>(inputs), ...); }
 
+// ---------------------------------------------------------------- second grammar: arities 0, 1, 3 and 5, a typed term, an error rule, verbose call forms
+// doc -> items ; items -> eps | items item ';' | items error ';' ; item -> 'a' 'b' 'a' 'b' 'a' | num        (num: typed term, its functor is never contextual)
+static long g_term_ftor_calls = 0; static bool g_term_ftor_saw_ctx = false;
+struct NumF { int operator()(std::string_view) const { ++g_term_ftor_calls; return 7; } template<class C> int operator()(C&&, std::string_view) const { g_term_ftor_saw_ctx = true; return 7; } };
+template<int K> struct NF2 { template<class... A> int operator()(A&&...) const { g_calls.push_back(Call{K, int(sizeof...(A)), false, nullptr, false, false, -1, false, -1}); return K; } };
+template<int K> struct CF2 {
+    template<class C, class... A> int operator()(C&& ctx, A&&...) const {
+        using B = std::remove_reference_t<C>;
+        Call c{K, int(sizeof...(A)), true, static_cast<const void*>(std::addressof(ctx)), std::is_const_v<B>, std::is_lvalue_reference_v<C&&>, -1, false, -1};
+        if constexpr (is_ctx<std::remove_const_t<B>>::value) { c.counter_seen = ctx.counter; c.moved_from = ctx.moved_from; c.serial = ctx.serial; if constexpr (!std::is_const_v<B>) ctx.counter++; }
+        g_calls.push_back(c); return K;
+    }
+};
+constexpr nterm<int> doc2("doc"); constexpr nterm<int> items2("items"); constexpr nterm<int> item2("item");
+constexpr char num2_pattern[] = "n+";
+template<bool Ctxl, int K, class R> constexpr auto attach2(R r) { if constexpr (Ctxl) return r >>= CF2<K>{}; else return r >= NF2<K>{}; }
+template<unsigned M> static auto make_parser2() {
+    static const typed_term num2(regex_term<num2_pattern>("num"), NumF{});
+    return parser(doc2, terms('a', 'b', ';', num2), nterms(doc2, items2, item2), rules(
+        attach2<(M & 1) != 0, 0>(doc2(items2)), attach2<(M & 2) != 0, 1>(items2()), attach2<(M & 4) != 0, 2>(items2(items2, item2, ';')),
+        attach2<(M & 8) != 0, 3>(items2(items2, error, ';')), attach2<(M & 16) != 0, 4>(item2('a', 'b', 'a', 'b', 'a')), attach2<(M & 32) != 0, 5>(item2(num2))));
+}
+template<unsigned M> static void run_mask2(const std::vector<std::string>& inputs) {
+    static const auto p = make_parser2<M>();
+    static ref::Gram g; static ref::LR1 lr; static bool init = false;
+    if (!init) { init = true; g.NT = 3; g.T = 4; int T0 = ref::TERM, E = ref::TERM + 5; auto rule = [&](int l, std::initializer_list<int> r) { int k = g.R++; g.lhs[k] = l; g.n[k] = 0; for (int x : r) g.rhs[k][g.n[k]++] = x; };
+        rule(0, {1}); rule(1, {}); rule(1, {1, 2, T0 + 2}); rule(1, {1, E, T0 + 2}); rule(2, {T0, T0 + 1, T0, T0 + 1, T0}); rule(2, {T0 + 3}); g.finish(); lr = ref::build_lr1(g, ref::analyse(g), false); if (!lr.conflict_free()) { std::printf("harness error\n"); std::exit(2); } }
+    static const int arity[6] = {1, 0, 3, 3, 5, 1};
+    for (const std::string& in : inputs) {
+        std::vector<ref::Tok> toks; bool lexfail = false;
+        for (size_t i = 0; i < in.size() && !lexfail;) { char c = in[i]; if (c == 'a') toks.push_back(ref::Tok{0, (int)i++, 1}); else if (c == 'b') toks.push_back(ref::Tok{1, (int)i++, 1}); else if (c == ';') toks.push_back(ref::Tok{2, (int)i++, 1}); else if (c == 'n') { size_t e = i; while (e < in.size() && in[e] == 'n') ++e; toks.push_back(ref::Tok{3, (int)i, int(e - i)}); i = e; } else lexfail = true; }
+        ref::Run ex = ref::drive(g, ref::RefTable{lr}, toks, 4000, lexfail);
+        int nctx = 0; for (int r : ex.reductions) if ((M >> r) & 1) ++nctx;
+        auto judge = [&](const char* cat, const std::optional<int>& res, const void* want_addr, bool want_const, bool real_ctx) {
+            ++g_cases; ++g_checks;
+            if (res.has_value() != ex.ok) { fail(M, cat, "[grammar 2] " + in, "wrong acceptance"); return; }
+            ++g_checks; if (g_calls.size() != ex.reductions.size()) { fail(M, cat, "[grammar 2] " + in, "number of functor calls " + std::to_string(g_calls.size()) + " != reductions " + std::to_string(ex.reductions.size())); return; }
+            int seen = 0;
+            for (size_t k = 0; k < g_calls.size(); ++k) {
+                const Call& c = g_calls[k]; int r = ex.reductions[k]; bool ctxl = (M >> r) & 1; ++g_checks;
+                if (c.rule != r) { fail(M, cat, "[grammar 2] " + in, "call " + std::to_string(k) + " is rule " + std::to_string(c.rule) + ", reduction order says " + std::to_string(r)); return; }
+                if (c.has_ctx != ctxl) { fail(M, cat, "[grammar 2] " + in, "rule " + std::to_string(r) + (ctxl ? " did not receive" : " received") + " a context"); return; }
+                if (c.nargs != arity[r]) { fail(M, cat, "[grammar 2] " + in, "rule " + std::to_string(r) + " got " + std::to_string(c.nargs) + " value arguments, it has " + std::to_string(arity[r]) + " right-side symbols"); return; }
+                if (!ctxl || !real_ctx) continue;
+                ++g_ctx_calls;
+                if (c.addr != want_addr) { fail(M, cat, "[grammar 2] " + in, "context is not the caller's object"); return; }
+                if (c.is_const != want_const || !c.is_lvalue) { fail(M, cat, "[grammar 2] " + in, "constness / value category of the context not preserved"); return; }
+                if (!want_const && c.counter_seen != seen) { fail(M, cat, "[grammar 2] " + in, "mutation by an earlier functor not visible"); return; }
+                ++seen;
+            }
+            ++g_checks; if (g_term_ftor_saw_ctx) fail(M, cat, "[grammar 2] " + in, "a term functor was called with the context");
+        };
+        { g_calls.clear(); Ctx c(1); std::ostringstream es; auto r = p.context_parse(c, string_buffer(in.c_str()), es); judge("lvalue+stream", r, &c, false, true); ++g_checks; if (c.counter != nctx) fail(M, "lvalue+stream", "[grammar 2] " + in, "caller does not see the functors' mutations"); }
+        { g_calls.clear(); const Ctx c(2); std::ostringstream es; auto r = p.context_parse(c, string_buffer(in.c_str()), es); judge("const-lvalue+stream", r, &c, true, true); }
+        { g_calls.clear(); Ctx c(3); std::ostringstream es; auto r = p.context_parse(c, parse_options{}.set_verbose(), string_buffer(in.c_str()), es); judge("lvalue+verbose+stream", r, &c, false, true); ++g_checks; if (c.counter != nctx) fail(M, "lvalue+verbose+stream", "[grammar 2] " + in, "caller does not see the functors' mutations"); }
+        { g_calls.clear(); Ctx c(4); std::ostringstream es; auto r = p.context_parse(c, parse_options{}.set_skip_whitespace(false), string_buffer(in.c_str()), es); judge("lvalue+options+stream", r, &c, false, true); }
+        { g_calls.clear(); std::ostringstream es; auto r = p.parse(string_buffer(in.c_str()), es); judge("parse()+stream", r, nullptr, false, false); }
+    }
+}
+template<unsigned... M> static void run_all2(const std::vector<std::string>& inputs, std::integer_sequence<unsigned, M...>) { (run_mask2<M>(inputs), ...); }
+
 int main(int argc, char** argv) {
     int n = argc > 1 ? std::atoi(argv[1]) : 4;
+    {
+        std::vector<std::string> in2{""}; int n2 = n > 6 ? 7 : n + 2;
+        for (size_t lo = 0, l = 0; l < (size_t)n2; ++l) { size_t hi = in2.size(); for (size_t i = lo; i < hi; ++i) for (char c : {'a', 'b', ';', 'n'}) in2.push_back(in2[i] + c); lo = hi; }
+        for (const char* x : {"ababa;n;", "ababa;nn;ababa;", "abab;n;", "n;abba;ababa;", "ababa;;n;", "n;x"}) in2.push_back(x);
+        run_all2(in2, std::integer_sequence<unsigned, 0, 63, 21, 42, 1, 2, 4, 8, 16, 32>{});
+    }
     std::vector<std::string> inputs{""};
     for (size_t lo = 0, l = 0; l < (size_t)n; ++l) { size_t hi = inputs.size(); for (size_t i = lo; i < hi; ++i) for (char c : {'a', 'b', 'x'}) inputs.push_back(inputs[i] + c); lo = hi; }
     run_all(inputs, std::make_integer_sequence<unsigned, 16>{});
